@@ -832,17 +832,17 @@ class VMF:
             worldspawn.solids = []
         map_obj.brushes = worldspawn.solids
 
-        for ent in tree.find_all('Entity'):
-            map_obj.add_ent(
-                Entity.parse(map_obj, ent, False)  # hidden=False
-            )
-
-        # find hidden entities
-        for hidden_ent in tree.find_all('hidden'):
-            for ent in hidden_ent:
+        # Visible entities and hidden ones (wrapped in a hidden block), kept in file order.
+        for block in tree:
+            if block.name == 'entity':
                 map_obj.add_ent(
-                    Entity.parse(map_obj, ent, True)  # hidden=True
+                    Entity.parse(map_obj, block, False)  # hidden=False
                 )
+            elif block.name == 'hidden':
+                for ent in block:
+                    map_obj.add_ent(
+                        Entity.parse(map_obj, ent, True)  # hidden=True
+                    )
 
         return map_obj
 
